@@ -96,6 +96,10 @@ def same_term(ctx, t, u):
     for v, c in t.variables.items():
         if float(c) != float(u.variables[v]):
             return False
+    if ctx.mode == "real":
+        # "constants unchanged up to floating-point round-off": reduce_polytope computes (c + 1) - 1
+        a, b = float(t.constant), float(u.constant)
+        return abs(a - b) <= 1e-9 * (1 + abs(b))
     return ctx.provable(O.E.toz(t.constant) == O.E.toz(u.constant))
 
 
